@@ -19,11 +19,24 @@
 #include "core/tokens.h"
 #include "core/print_error.h"
 
+// Evaluate a data value keeping all 64 bits, so that the range checks of
+// .db and .dw see the value that was written and not its low 32 bits
+// (0xffffffff used to pass as -1).
+static int eval_data(AsmContext *asm_context, int64_t *value)
+{
+  Var var;
+  int ret = eval_expression(asm_context, var);
+
+  *value = var.get_int64();
+
+  return ret;
+}
+
 int parse_db(AsmContext *asm_context, int null_term_flag)
 {
   char token[TOKENLEN];
   int token_type;
-  int data32;
+  int64_t data32;
 
   if (asm_context->segment == SEGMENT_BSS)
   {
@@ -69,7 +82,7 @@ int parse_db(AsmContext *asm_context, int null_term_flag)
     {
       tokens_push(asm_context, token, token_type);
 
-      if (eval_expression(asm_context, &data32) != 0)
+      if (eval_data(asm_context, &data32) != 0)
       {
         if (asm_context->pass == 2)
         {
@@ -111,7 +124,7 @@ int parse_dc16(AsmContext *asm_context)
 {
   char token[TOKENLEN];
   int token_type;
-  int data32;
+  int64_t data32;
   uint16_t data16;
 
   if (asm_context->segment == SEGMENT_BSS)
@@ -127,7 +140,7 @@ int parse_dc16(AsmContext *asm_context)
     if (token_type == TOKEN_EOL || token_type == TOKEN_EOF) { break; }
     tokens_push(asm_context, token, token_type);
 
-    if (eval_expression(asm_context, &data32) != 0)
+    if (eval_data(asm_context, &data32) != 0)
     {
       if (asm_context->pass == 2)
       {
